@@ -41,7 +41,7 @@ ASSUMPTIONS = [
     "the known finding single-shot-peek is matched counterfactually: same bytes accepted under whole delivery and under the same schedule with only its first chunk enlarged",
 ]
 EXPECTED_PROBES = ["neutral-name-sniffed", "stdin-read", "first-chunk-inside-magic", "one-byte-delivery", "two-writers-open", "garbage-refused", "avro-cell", "independent-decompressor-ok",
-                   "scheme-stdin"]  # fmt: skip
+                   "scheme-stdin", "foreign-producer"]  # fmt: skip
 
 CODECS = ["none", "gz", "bz2", "lz4", "zst"]
 EXT = {"none": "", "gz": ".gz", "bz2": ".bz2", "lz4": ".lz4", "zst": ".zst"}
@@ -57,7 +57,7 @@ def budget(tier):
 
 
 def wall_cap(tier):
-    return 300 if tier == "quick" else 3600
+    return 300 if tier == "quick" else 1500
 
 
 # -- generation ---------------------------------------------------------------------------------
@@ -120,13 +120,18 @@ def generate(rng, tier, index):
         if rng.random() < 0.1:
             ops.append({"op": "flush", "w": wid})
     reads = []
-    for naming in NAMINGS:
+    order = list(NAMINGS)
+    rng.shuffle(order)  # process-global state (lazy imports, caches) must not depend on which access path ran first
+    for naming in order:
         reads.append({"naming": naming, "delivery": gen_delivery(rng)})
     garbage = []
     for _ in range(rng.choice([1, 2, 3])):
         garbage.append(gen_garbage(rng))
+    # "foreign": the file was not produced through a codec path of this process - the library writes the
+    # uncompressed container and the format's own compressor (called directly) does the rest
+    producer = "foreign" if (not two and rng.random() < 0.35) else "library"
     return {"container": container, "codec": codec, "writers": writers, "pool": pool, "ops": ops, "reads": reads, "garbage": garbage,
-            "read_buffer_size": rng.choice([8192, 8192, 64, 32])}  # fmt: skip
+            "read_buffer_size": rng.choice([8192, 8192, 64, 32]), "producer": producer}  # fmt: skip
 
 
 def gen_garbage(rng):
@@ -192,6 +197,18 @@ def independent_decompress(codec, data):
         return out
     if codec == "zst":
         return zstandard.ZstdDecompressor().stream_reader(io.BytesIO(data), read_across_frames=True).read()
+    return data
+
+
+def foreign_compress(codec, data):
+    if codec == "gz":
+        return gzip.compress(data, mtime=0)
+    if codec == "bz2":
+        return bz2.compress(data)
+    if codec == "lz4":
+        return lz4.frame.compress(data)
+    if codec == "zst":
+        return zstandard.ZstdCompressor().compress(data)
     return data
 
 
@@ -283,9 +300,10 @@ def execute(plan, keep_log=False):
         written = {}
         stem = "x.avro" if container == "avro" else "x.records"
         pre = "avro://" if container == "avro" else ""
+        foreign = plan.get("producer") == "foreign"
         for wd in plan["writers"]:
-            path = "/simfs/%s.%s%s" % (wd["id"], stem, EXT[wd["codec"]])
-            writers[wd["id"]] = (RecordWriter(pre + path), path, wd["codec"])
+            path = "/simfs/%s.%s%s" % (wd["id"], stem, "" if foreign else EXT[wd["codec"]])
+            writers[wd["id"]] = (RecordWriter(pre + path), path, "none" if foreign else wd["codec"])
             written[wd["id"]] = []
             w.keep.append(writers[wd["id"]][0])
         if len(writers) > 1:
@@ -303,9 +321,14 @@ def execute(plan, keep_log=False):
             wr.__exit__(None, None, None)
         # ---- clause 1: leading bytes + independent decompressor -------------------------------------
         files = {}
+        if foreign:
+            w.probe("foreign-producer")
         for wid in sorted(writers):
             _, path, c = writers[wid]
             data = w.fs.get(path)
+            if foreign:
+                c = [wd["codec"] for wd in plan["writers"] if wd["id"] == wid][0]
+                data = foreign_compress(c, data)
             files[wid] = (data, c)
             if c != "none" and not data.startswith(MAGIC[c]):
                 add(_viol("C11.written-codec", "file %s does not start with the %s magic: %r" % (path, c, data[:8])))
@@ -455,3 +478,18 @@ def _single_shot_peek(plan, viol):
 
 
 KNOWN = {"single-shot-peek": _single_shot_peek}
+
+
+def mutate(plan, rng):
+    import copy
+
+    p = copy.deepcopy(plan)
+    r = rng.random()
+    if r < 0.6 and p["reads"]:
+        i = rng.randrange(len(p["reads"]))
+        p["reads"][i]["delivery"] = gen_delivery(rng)
+    elif r < 0.8:
+        p["garbage"].append(gen_garbage(rng))
+    else:
+        p["read_buffer_size"] = rng.choice([8192, 64, 32, 20])
+    return p
